@@ -35,65 +35,125 @@ def load_findings():
     return json.load(open(fn))
 
 
-def _prove_task(task):
+def _get_model(modname):
+    model = _MODEL_CACHE.get(modname)
+    if model is None:
+        model = importlib.import_module(modname).build()
+        _MODEL_CACHE[modname] = model
+    return model
+
+
+def _find_contract(model, cname):
+    for cc in list(model.contracts.values()) + list(model.func_contracts.values()):
+        if cc.name == cname:
+            return cc
+    raise KeyError(cname)
+
+
+def _err(cname, modname, e):
+    return {"function": cname, "module": modname, "status": "error",
+            "reason": f"{type(e).__name__}: {e}\n{traceback.format_exc()[-2000:]}", "obligations": [],
+            "paths": 0, "seconds": 0, "where": "", "sha": "", "models": [], "dropped": [], "assumed": []}
+
+
+def _enum_task(task):
+    """phase 1: enumerate the paths of one function (solving only generator-level obligations)"""
     modname, cname, timeout_ms = task
     try:
         from pyvc.prove import verify_function
-        mod = importlib.import_module(modname)
-        model = _MODEL_CACHE.get(modname)
-        if model is None:
-            model = mod.build()
-            _MODEL_CACHE[modname] = model
-        c = None
-        for cc in list(model.contracts.values()) + list(model.func_contracts.values()):
-            if cc.name == cname:
-                c = cc
-        t0 = time.time()
-        variants = getattr(c, "variants", None)
-        rep = verify_function(model, c, timeout_ms, interference=getattr(c, "interference", None))
+        model = _get_model(modname)
+        c = _find_contract(model, cname)
+        rep = verify_function(model, c, timeout_ms, interference=getattr(c, "interference", None),
+                              phase="enumerate")
         d = rep.to_json()
-        d["module"] = modname
-        d["grade"] = getattr(c, "grade", "proved")
-        d["note"] = c.note
-        d["prop"] = c.prop
-        # attach replay hints computed by the contract module
-        hints = []
-        for m in rep.models:
-            hints.append(m)
-        d["models"] = hints
+        d.update(module=modname, note=c.note, prop=c.prop, vectors=getattr(rep, "vectors", []))
         return d
     except Exception as e:  # noqa
-        return {"function": cname, "module": modname, "status": "error",
-                "reason": f"{type(e).__name__}: {e}\n{traceback.format_exc()[-2000:]}", "obligations": [],
-                "paths": 0, "seconds": 0, "where": "", "sha": "", "models": [], "dropped": [], "assumed": []}
+        return _err(cname, modname, e)
+
+
+def _solve_task(task):
+    """phase 2: re-execute a chunk of decision vectors and discharge their obligations"""
+    modname, cname, timeout_ms, vectors = task
+    try:
+        from pyvc.prove import verify_function
+        model = _get_model(modname)
+        c = _find_contract(model, cname)
+        rep = verify_function(model, c, timeout_ms, interference=getattr(c, "interference", None),
+                              phase="solve", vectors=vectors)
+        d = rep.to_json()
+        d.update(module=modname, note=c.note, prop=c.prop)
+        return d
+    except Exception as e:  # noqa
+        return _err(cname, modname, e)
 
 
 _MODEL_CACHE: dict = {}
 
 
-def run_proofs(modules, timeout_ms, jobs):
+def run_proofs(modules, timeout_ms, jobs, only=None):
     tasks = []
     meta = {}
     for modname in modules:
-        mod = importlib.import_module(modname)
-        model = mod.build()
+        model = _get_model(modname)
+        cs = list(model.contracts.values()) + list(model.func_contracts.values())
         meta[modname] = {"assumptions": list(model.assumptions),
-                         "trusted": [c.name + (": " + c.note if c.note else "") for c in
-                                     list(model.contracts.values()) + list(model.func_contracts.values())
-                                     if c.trusted],
-                         "inlined": [c.name for c in list(model.contracts.values()) + list(model.func_contracts.values())
-                                     if c.inline]}
-        for c in list(model.contracts.values()) + list(model.func_contracts.values()):
+                         "trusted": [c.name + (": " + c.note if c.note else "") for c in cs if c.trusted],
+                         "inlined": [c.name for c in cs if c.inline]}
+        for c in cs:
             if c.trusted or c.inline:
+                continue
+            if only and not any(o in c.name for o in only):
                 continue
             if getattr(c, "thorough_only", False) and timeout_ms < 60000:
                 continue
             tasks.append((modname, c.name, timeout_ms))
     if not tasks:
         return [], meta
-    with mp.Pool(min(jobs, len(tasks))) as pool:
-        reps = pool.map(_prove_task, tasks, chunksize=1)
-    return reps, meta
+    with mp.Pool(jobs) as pool:
+        enums = pool.map(_enum_task, tasks, chunksize=1)
+        # phase 2: chunks of paths, largest functions first
+        t2 = []
+        for e in enums:
+            vecs = e.pop("vectors", [])
+            if e["status"] in ("error", "undecided") and not vecs:
+                continue
+            if e["status"] == "undecided" and "outside supported subset" in e.get("reason", ""):
+                continue
+            n = len(vecs)
+            chunk = max(1, min(12, n // (2 * jobs) + 1))
+            for i in range(0, n, chunk):
+                t2.append((e["module"], e["function"], timeout_ms, vecs[i:i + chunk]))
+        solved = pool.map(_solve_task, t2, chunksize=1) if t2 else []
+    return merge_slices(enums + solved), meta
+
+
+def merge_slices(reps):
+    out = {}
+    order = []
+    rank = {"error": 4, "failed": 3, "undecided": 2, "proved": 1}
+    for r in reps:
+        key = (r.get("module"), r["function"])
+        if key not in out:
+            out[key] = dict(r)
+            out[key]["paths_enumerated"] = r.get("paths", 0)
+            order.append(key)
+            continue
+        m = out[key]
+        m["seconds"] = m.get("seconds", 0) + r.get("seconds", 0)
+        m["obligations"] = m.get("obligations", []) + r.get("obligations", [])
+        m["models"] = m.get("models", []) + r.get("models", [])
+        m["dropped"] = sorted(set(m.get("dropped", []) + r.get("dropped", [])))
+        m["assumed"] = sorted(set(m.get("assumed", []) + r.get("assumed", [])))
+        if rank.get(r["status"], 0) > rank.get(m["status"], 0):
+            m["status"], m["reason"] = r["status"], r.get("reason", "")
+    res = []
+    for key in order:
+        m = out[key]
+        if m["status"] == "proved" and not m.get("obligations"):
+            m["status"], m["reason"] = "error", "no obligations generated"
+        res.append(m)
+    return res
 
 
 def run_bounded(prop, tier, out, budget=None):
@@ -174,7 +234,7 @@ def main():
     from tools.props import PROPS
     cfg = PROPS[prop]
     t0 = time.time()
-    timeout_ms = 10000 if tier == "quick" else 120000
+    timeout_ms = 20000 if tier == "quick" else 120000
     os.environ["PYVC_TIMEOUT_MS"] = str(timeout_ms)
     findings = load_findings()
     violations = []      # (text, replayfile)
